@@ -25,6 +25,9 @@ func init() {
 	wrap("C01", c01Extra, "R9 (added): the wildcard next-closer check in Resolver.answer sees only authority records already filtered to the validated signer zone (resp.Ns = FilterRRsToZone(resp.Ns, signer) precedes it on every path).")
 	wrap("C05", c05Extra, "R9 (added): the AD verdict of a wire-composed alias chase is a conjunction over every segment (each segs[i].ad with the loop index, never one fixed hop), as the decoded path computes it.")
 	wrap("C06", c06Extra, "R8 (added): the has-DNSSEC verdict of a stored wire body is taken from the answer AND authority sections (the guard of the flag compares the record index with ANCount+NSCount), so a signed negative answer is never handed unstripped to a DO=0 client.")
+	wrap("C18", c18Extra, "R8 (added): inside persist the only file ever removed is the temp file — the destination is replaced by rename alone, never unlinked first.")
+	wrap("C19", c19Extra, "R6 (added): ClampScope applies BOTH clamps on every path — the prefix length handed to Prefix() has passed the comparison with the forwarded source length and, for the address family at hand, the comparison with the configured minimum scope.")
+	wrap("C20", c20Extra, "R7 (added): negativeAAAATTL is min(SOA TTL, SOA MINIMUM): the MINIMUM replaces the TTL only behind Minttl < ttl.")
 	wrap("C14", c14Extra, "R5 (added): the raw RSA verifier compares the recovered encoding at full modulus width — both ConstantTimeCompare operands have length = the modulus size by construction (a fresh make(size) buffer or FillBytes into one), never the zero-stripped big.Int bytes.")
 	wrap("C02", c02Extra, "R9 (added): the aggressive-NSEC closest encloser is derived from BOTH names of the covering record (shared-suffix count with owner and with next, the larger of the two), as RFC 8198/4035 require.")
 	wrap("C13", c13Extra, "R8 (added): a stored failure is turned into a hit (failureEntry.hit) only behind now.Before(<that entry>.retryAfter) — on the Msg and the wire lookup alike — so suppression ends with the backoff.")
@@ -504,5 +507,128 @@ func c06Extra(c *Ctx) {
 	// and the type test in front of it names all three DNSSEC types (C05-R5 checks the set); here: the flag is reachable at all
 	if len(instrsWhere(fn, isSet)) == 0 {
 		c.unresolved("C06-R8", "prepareWireServe", "wireHasDNSSEC is never set")
+	}
+}
+
+func c18Extra(c *Ctx) {
+	c.Doc("C18-R8", "BlockList.persist (and the helpers/closures it calls): every os.Remove argument originates from the temp file's name (tmp.Name()); the destination path is never removed — an interruption between an unlink and the rename would leave no local file at all")
+	fn := c.fn("C18-R8", "middleware/blocklist.(*BlockList).persist")
+	osRemove := c.fobj("C18-R8", "os.Remove")
+	fname := c.fobj("C18-R8", "os.(*File).Name")
+	if fn == nil || osRemove == nil || fname == nil {
+		return
+	}
+	n := 0
+	for _, f := range scopeFuncs(fn) {
+		for _, b := range f.Blocks {
+			for _, in := range b.Instrs {
+				if !isCallTo(osRemove)(in) {
+					continue
+				}
+				n++
+				c.OriginCheck("C18-R8", "C18-R8|persist|os.Remove argument", in, "os.Remove argument", callArg(in, 0), nil, CallTo(fname))
+			}
+		}
+	}
+	if n == 0 {
+		c.unresolved("C18-R8", "persist os.Remove", "no cleanup of the temp file found")
+	}
+}
+
+func c19Extra(c *Ctx) {
+	c.Doc("C19-R6", "Policy.ClampScope: every path to scope.Addr().Prefix(bits) on which the scope is an IPv4 (IPv6) prefix has evaluated the comparison of bits with p.MinScopeV4 (MinScopeV6), and every path has evaluated the comparison with source.Bits() or found the source invalid — neither clamp can pre-empt the other")
+	fn := c.fn("C19-R6", "internal/ecs.(*Policy).ClampScope")
+	min4 := c.field("C19-R6", "internal/ecs.Policy.MinScopeV4")
+	min6 := c.field("C19-R6", "internal/ecs.Policy.MinScopeV6")
+	prefixF := c.fobj("C19-R6", "net/netip.Addr.Prefix")
+	is4 := c.fobj("C19-R6", "net/netip.Addr.Is4")
+	is6 := c.fobj("C19-R6", "net/netip.Addr.Is6")
+	pbits := c.fobj("C19-R6", "net/netip.Prefix.Bits")
+	pvalid := c.fobj("C19-R6", "net/netip.Prefix.IsValid")
+	if fn == nil || min4 == nil || min6 == nil || prefixF == nil || is4 == nil || is6 == nil || pbits == nil || pvalid == nil {
+		return
+	}
+	// "comparison evaluated" = a branch whose condition compares something with the field / call; either edge counts
+	bothEdges := func(name string, p Pat) []Barrier {
+		m := func(e *Expr) bool {
+			a, _ := Truthy(e)
+			a = strip(a)
+			return a != nil && a.K == EBin && (Contains(p)(a.X) || Contains(p)(a.Y))
+		}
+		mk := func(succ int) Barrier {
+			return Barrier{Name: name, Edge: func(cnd *Expr) (bool, int) {
+				if m(cnd) {
+					return true, succ
+				}
+				return false, 0
+			}}
+		}
+		return []Barrier{mk(0), mk(1)}
+	}
+	target := isPlainCallTo(prefixF)
+	isSourceBits := func(e *Expr) bool {
+		return CallTo(pbits)(e) && e.K == ECall && len(e.Args) == 1 && e.Args[0].K == EParam && e.Args[0].Name == "source"
+	}
+	sourceInvalid := OnFalse("source.IsValid()", func(e *Expr) bool {
+		return CallTo(pvalid)(e) && e.K == ECall && len(e.Args) == 1 && e.Args[0].K == EParam && e.Args[0].Name == "source"
+	})
+	c.MustCross("C19-R6", fn, "Prefix(bits) — source clamp evaluated", target, append(bothEdges("bits vs source.Bits()", isSourceBits), sourceInvalid)...)
+	// family floor: v4 scope ⇒ MinScopeV4 comparison evaluated ; v6 likewise
+	c.MustCross("C19-R6", fn, "Prefix(bits) — v4 floor evaluated", target, append(bothEdges("bits vs MinScopeV4", FieldIs(min4)), OnFalse("Is4()", CallTo(is4)))...)
+	c.MustCross("C19-R6", fn, "Prefix(bits) — v6 floor evaluated", target, append(bothEdges("bits vs MinScopeV6", FieldIs(min6)), OnFalse("Is6()", CallTo(is6)), OnTrue("Is4()", CallTo(is4)))...)
+}
+
+func c20Extra(c *Ctx) {
+	c.Doc("C20-R7", "negativeAAAATTL: the value returned is the SOA record's TTL, or its MINIMUM taken only behind Minttl < ttl (RFC 2308 §5: the negative TTL is the minimum of the two)")
+	fn := c.fn("C20-R7", "middleware/dns64.negativeAAAATTL")
+	minttl := c.field("C20-R7", "github.com/miekg/dns.SOA.Minttl")
+	hdrTTL := c.field("C20-R7", "github.com/miekg/dns.RR_Header.Ttl")
+	if fn == nil || minttl == nil || hdrTTL == nil {
+		return
+	}
+	n := 0
+	for _, b := range fn.Blocks {
+		for _, in := range b.Instrs {
+			r, ok := in.(*ssa.Return)
+			if !ok || len(r.Results) != 1 {
+				continue
+			}
+			top := Desc(r.Results[0])
+			for _, l := range Origins(top, nil) {
+				if IsAnyConst(l) || FieldIs(hdrTTL)(l) {
+					continue
+				}
+				n++
+				key := "C20-R7|negativeAAAATTL|MINIMUM only when smaller"
+				if !FieldIs(minttl)(l) {
+					c.violation("C20-R7", key, instrPos(in), "negative TTL has an origin other than the SOA TTL / MINIMUM: "+l.String())
+					continue
+				}
+				// the merge point that selects Minttl: the block feeding it must be behind Minttl < ttl
+				guard := OnCmp("Minttl<ttl", FieldIs(minttl), token.LSS, FieldIs(hdrTTL), true)
+				okG := false
+				if ph, isPhi := strip(top).V.(*ssa.Phi); isPhi {
+					okG = true
+					for i, ev := range ph.Edges {
+						if !FieldIs(minttl)(Desc(ev)) {
+							continue
+						}
+						pred := ph.Block().Preds[i]
+						term := pred.Instrs[len(pred.Instrs)-1]
+						if ug, _ := c.unguarded(term, []Barrier{guard}, fn); ug {
+							okG = false
+						}
+					}
+				}
+				if okG {
+					c.ok("C20-R7", key, instrPos(in), "ttl = soa.Minttl only behind soa.Minttl < ttl")
+				} else {
+					c.violation("C20-R7", key, instrPos(in), "the SOA MINIMUM replaces the SOA TTL without the `Minttl < ttl` test: the synthesised TTL can exceed the negative TTL of the AAAA answer")
+				}
+			}
+		}
+	}
+	if n == 0 {
+		c.unresolved("C20-R7", "negativeAAAATTL", "no return drawing on SOA.Minttl found")
 	}
 }
